@@ -1,23 +1,42 @@
-(* C12 — property theorems only: each closed by [exact] of a lemma proved elsewhere. *)
-From Coq Require Import List String Bool ZArith Permutation Sorted.
-From Helm Require Import Engine.Types Engine.Eff Engine.Ops Engine.HooksProofsSort.
-Import ListNotations.
+(* C12 — property theorems only: each closed by [exact] of a lemma proved elsewhere.
 
-(* The order in which execHook runs the hooks of an event ([sort_hooks], the model of
-   sort.Stable(hookByWeight)) is a rearrangement of the selected hooks ... *)
+   Vocabulary (Engine/HooksProofsTrace.v, HooksProofsGate.v):
+   [exec p tr a]   program p runs to result a performing exactly the (effect, answer) pairs
+                   of tr, in order — for ANY answers, i.e. for every cluster behaviour,
+                   storage fault and crash; every run of the interpreter Seq.run is one
+                   (C12_every_run_is_an_execution).
+   [cview tr]      the creations (CCreate payload ok), hook watches (CWatch event hook ok),
+                   deletions (CDelete payload ok) and updates of tr, in order;
+   [cwview tr]     only its creations and hook watches.
+   [pol_del h p]   = [CDelete [h_res h] true] if h is not of kind CustomResourceDefinition and
+                   has p among its effective policies (before-hook-creation when none is
+                   given), [] otherwise.
+   [run_ok ev h]   = pol_del h BeforeHookCreation ++ [CCreate [h_res h] true; CWatch ev h true].
+   [succ_dels hs]  = the pol_del h HookSucceeded of the hooks of hs, in that order.
+   [quiet tr]      no cluster mutation and no hook watch in tr; [storage_only tr]: no cluster
+                   call at all; [nowatch tr]: no hook watch. *)
+From Coq Require Import List String Bool ZArith Permutation Sorted.
+From Helm Require Import Engine.Types Engine.Eff Engine.Ops Engine.Cluster Engine.Seq
+  Engine.HooksProofsSort Engine.HooksProofsTrace Engine.HooksProofsOrder Engine.HooksProofsGate
+  Engine.HooksProofsExamples.
+Import ListNotations.
+Local Open Scope string_scope.
+
+(* ------------------------------------------------------------------ *)
+(* the order: sort.Stable(hookByWeight)                                 *)
+
 Theorem C12_sort_permutation :
   forall l : list hook, Permutation (sort_hooks l) l.
 Proof. exact sort_hooks_perm. Qed.
 Print Assumptions C12_sort_permutation.
 
-(* ... in which no hook comes after a hook that is strictly greater in (weight, name) ... *)
+(* no hook comes after a hook that is strictly greater in (weight, name) *)
 Theorem C12_sort_ascending :
   forall l : list hook, StronglySorted (fun a b => hook_less b a = false) (sort_hooks l).
 Proof. exact sort_hooks_sorted. Qed.
 Print Assumptions C12_sort_ascending.
 
-(* ... and which is stable: for every (weight, name) class — [hook_equiv k x] holds exactly
-   when x has the weight and name of k — the hooks of the class keep their input order. *)
+(* stable: the hooks of one (weight, name) class keep their (kind-sorted) input order *)
 Theorem C12_sort_stable :
   forall (k : hook) (l : list hook),
     filter (fun x => negb (hook_less k x) && negb (hook_less x k)) (sort_hooks l)
@@ -30,3 +49,219 @@ Theorem C12_equiv_is_same_weight_and_name :
     negb (hook_less a b) && negb (hook_less b a) = true <-> h_weight a = h_weight b /\ h_name a = h_name b.
 Proof. exact hook_equiv_same_key. Qed.
 Print Assumptions C12_equiv_is_same_weight_and_name.
+
+(* a hook is selected for an event iff it is a hook of the release that lists the event *)
+Theorem C12_selection :
+  forall ev h rl,
+    In h (sort_hooks (hooks_for ev (hooks rl))) <-> In h (hooks rl) /\ In ev (h_events h).
+Proof. exact in_sorted_hooks. Qed.
+Print Assumptions C12_selection.
+
+(* ------------------------------------------------------------------ *)
+(* executions                                                          *)
+
+Theorem C12_every_run_is_an_execution :
+  forall (K : Type) (kh : forall e : eff, K -> K * resp e * list kev) (dresp : forall e, resp e)
+         (A : Type) (f : sfaults) (p : prog A) (s : rstate K),
+    exists tr, exec p tr (snd (run K kh dresp f p s)).
+Proof. exact run_is_exec. Qed.
+Print Assumptions C12_every_run_is_an_execution.
+
+(* C12_order — in EVERY execution of execHook the hooks of the event are created one at a
+   time in the sorted order: the creations and watches of the trace are exactly
+   create h1, watch h1 = ok, create h2, watch h2 = ok, ... for a prefix [pre] of the sorted
+   list, each creation issued only after the previous watch returned true, followed by
+   nothing (all ran, or a policy deletion failed), or by the refused creation of the next
+   hook, or by its creation and failed watch; nothing is created after a failure. *)
+Theorem C12_order :
+  forall rl ev tr b,
+    exec (exec_hook rl ev) tr b ->
+    exists pre rest, sort_hooks (hooks_for ev (hooks rl)) = (pre ++ rest)%list /\
+      ((cwview tr = flat_map (fun h => [CCreate [h_res h] true; CWatch ev h true]) pre
+        /\ (rest = [] \/ b = false))
+       \/
+       (exists h rest', rest = h :: rest' /\ b = false /\
+          (cwview tr = (flat_map (fun h => [CCreate [h_res h] true; CWatch ev h true]) pre
+                        ++ [CCreate [h_res h] false])%list
+           \/ cwview tr = (flat_map (fun h => [CCreate [h_res h] true; CWatch ev h true]) pre
+                           ++ [CCreate [h_res h] true; CWatch ev h false])%list))).
+Proof. exact exec_hook_order. Qed.
+Print Assumptions C12_order.
+
+(* C12_policies — the complete cluster-visible trace of execHook when no creation is refused
+   (that case is the known finding K8, below) and no deletion fails:
+   success: every hook, in order, is deleted first iff before-hook-creation, created,
+   watched; then the hook-succeeded hooks are deleted (in reverse order);
+   failure of the watch of h: the earlier hooks ran completely; h is deleted first iff
+   before-hook-creation, created, watched = failed, deleted iff hook-failed; then the
+   earlier (successful) hooks are deleted iff hook-succeeded.  Nothing else happens. *)
+Theorem C12_policies :
+  forall rl ev tr b,
+    exec (exec_hook rl ev) tr b -> Forall del_ok tr -> Forall create_ok tr ->
+    let hs := sort_hooks (hooks_for ev (hooks rl)) in
+    (b = true /\ cview tr = (flat_map (run_ok ev) hs ++ succ_dels (List.rev hs))%list)
+    \/
+    (b = false /\ exists pre h post, hs = (pre ++ h :: post)%list /\
+        cview tr = (flat_map (run_ok ev) pre ++ pol_del h BeforeHookCreation
+                    ++ [CCreate [h_res h] true; CWatch ev h false]
+                    ++ pol_del h HookFailed ++ succ_dels pre)%list).
+Proof. exact exec_hook_policies. Qed.
+Print Assumptions C12_policies.
+
+(* ... and with refused creations included (third shape: the refused creation ends the
+   execution at once, without any policy deletion) *)
+Theorem C12_hook_trace :
+  forall rl ev tr b,
+    exec (exec_hook rl ev) tr b -> Forall del_ok tr ->
+    let hs := sort_hooks (hooks_for ev (hooks rl)) in
+    (b = true /\ cview tr = (flat_map (run_ok ev) hs ++ succ_dels (List.rev hs))%list)
+    \/
+    (b = false /\ exists pre h post, hs = (pre ++ h :: post)%list /\
+       (cview tr = (flat_map (run_ok ev) pre ++ pol_del h BeforeHookCreation ++ [CCreate [h_res h] false])%list
+        \/
+        cview tr = (flat_map (run_ok ev) pre ++ pol_del h BeforeHookCreation
+                    ++ [CCreate [h_res h] true; CWatch ev h false]
+                    ++ pol_del h HookFailed ++ succ_dels pre)%list)).
+Proof. exact exec_hook_trace. Qed.
+Print Assumptions C12_hook_trace.
+
+(* known finding K8: h1 (hook-succeeded) completed, the creation of h2 is refused: h1 is
+   not deleted *)
+Theorem C12_create_refused_refuted :
+  exec (exec_hook k8_rel PreInstall) k8_trace false /\
+  has_policy k8_h1 HookSucceeded = true /\
+  In (CWatch PreInstall k8_h1 true) (cview k8_trace) /\
+  ~ In (CDelete [h_res k8_h1] true) (cview k8_trace).
+Proof. exact create_refused_refuted. Qed.
+Print Assumptions C12_create_refused_refuted.
+
+(* in EVERY execution (also when deletions fail): whatever execHook deletes is the resource
+   of a selected hook that is not a CustomResourceDefinition and carries a delete policy *)
+Theorem C12_deletions_follow_policy :
+  forall rl ev tr b,
+    exec (exec_hook rl ev) tr b ->
+    forall rs ok, In (ER (KDelete rs) ok) tr ->
+      exists h, In h (hooks rl) /\ In ev (h_events h) /\ rs = [h_res h]
+                /\ h_kind h <> "CustomResourceDefinition" /\ exists p, has_policy h p = true.
+Proof. exact exec_hook_deletes. Qed.
+Print Assumptions C12_deletions_follow_policy.
+
+(* ------------------------------------------------------------------ *)
+(* the gate, for install / upgrade / rollback / uninstall              *)
+
+(* C12_pre_gate — every execution of a non-atomic operation splits into a part tr0 without
+   any cluster mutation or hook watch, the execution trh of the pre-event hooks of the
+   release record rel, and the rest tr2; if the pre-hooks fail (result false: by C12_order /
+   C12_hook_trace trh then holds only hook creations, watches and policy deletions) the
+   outcome is an error and tr2 contains no cluster call at all — no resource of the release
+   is created, changed or deleted and no later hook runs. *)
+Theorem C12_pre_gate :
+  forall rn ns o tr out,
+    f_atomic (op_flags o) = false -> f_dry_run (op_flags o) = false ->
+    exec (op_prog rn ns o) tr out ->
+    exists tr0 rest, tr = (tr0 ++ rest)%list /\ quiet tr0 /\
+      (rest = [] \/
+       exists rel trh b tr2,
+         rest = (trh ++ tr2)%list /\ hook_release o tr0 rel /\
+         exec (run_hooks (op_flags o) rel (pre_event o)) trh b /\
+         (b = false -> out = OErr EOtherErr /\ storage_only tr2)).
+Proof. exact pre_gate. Qed.
+Print Assumptions C12_pre_gate.
+
+(* during execHook itself only the hooks selected for the event are touched *)
+Theorem C12_hook_phase_events :
+  forall rl ev tr b,
+    exec (exec_hook rl ev) tr b ->
+    Forall (fun x =>
+      match eff_of x with
+      | KDelete rs | KWaitDelete rs | KCreate rs =>
+          exists h, In h (sort_hooks (hooks_for ev (hooks rl))) /\ rs = [h_res h]
+      | KHookWatch ev' h => ev' = ev /\ In h (sort_hooks (hooks_for ev (hooks rl)))
+      | SUpdate r => r = rl
+      | _ => False
+      end) tr.
+Proof. exact hook_phase_events. Qed.
+Print Assumptions C12_hook_phase_events.
+
+(* a failing post-hook fails the operation: success requires that the pre-event hooks and,
+   after the resources, the post-event hooks ran to completion (result true); the only
+   success without hooks is the uninstall of an already uninstalled release, which touches
+   nothing in the cluster *)
+Theorem C12_success_needs_hooks :
+  forall rn ns o tr,
+    f_atomic (op_flags o) = false -> f_dry_run (op_flags o) = false ->
+    exec (op_prog rn ns o) tr OOk ->
+    (may_succeed_quietly o = true /\ quiet tr)
+    \/
+    exists tr0 rel trh trm trp tr3,
+      tr = (tr0 ++ trh ++ trm ++ trp ++ tr3)%list /\ quiet tr0 /\ hook_release o tr0 rel /\
+      exec (run_hooks (op_flags o) rel (pre_event o)) trh true /\ nowatch trm /\
+      exec (run_hooks (op_flags o) rel (post_event o)) trp true /\ nowatch tr3.
+Proof. exact success_needs_hooks. Qed.
+Print Assumptions C12_success_needs_hooks.
+
+(* C12_no_hooks — with hooks disabled run_hooks does nothing, and in every execution of
+   every operation (atomic recovery included) there is no hook watch and no creation other
+   than that of the stamped manifest by install *)
+Theorem C12_no_hooks_phase :
+  forall fl rl ev tr b, f_no_hooks fl = true -> exec (run_hooks fl rl ev) tr b -> tr = [] /\ b = true.
+Proof. exact run_hooks_disabled. Qed.
+Print Assumptions C12_no_hooks_phase.
+
+Theorem C12_no_hooks :
+  forall rn ns o tr out,
+    f_no_hooks (op_flags o) = true ->
+    exec (op_prog rn ns o) tr out ->
+    Forall (fun x =>
+      match eff_of x with
+      | KHookWatch _ _ => False
+      | KCreate rs => match o with OpInstall _ _ _ mani _ => rs = stamp_all rn ns mani | _ => False end
+      | _ => True
+      end) tr.
+Proof. exact no_hooks_stmt. Qed.
+Print Assumptions C12_no_hooks.
+
+(* C12_hooks_not_in_manifest is C08's partition (hook documents never enter the manifest);
+   here: the harness oracle checks it on every rendered chart. *)
+
+(* ------------------------------------------------------------------ *)
+(* examples                                                            *)
+
+(* the probe of DESIGN.md *)
+Example C12_probe_order :
+  map h_name (sort_hooks (hooks_for PreInstall probe)) = ["hb"; "hd"; "ha"; "hz"].
+Proof. exact probe_order. Qed.
+Print Assumptions C12_probe_order.
+
+(* observation, not a finding: an event named twice in one annotation selects the hook twice *)
+Example C12_duplicated_event_runs_twice :
+  let h := hk_ "hd" 0 [PreInstall; PreInstall] [] in
+  sort_hooks (hooks_for PreInstall [h]) = [h; h].
+Proof. exact duplicated_event_runs_twice. Qed.
+Print Assumptions C12_duplicated_event_runs_twice.
+
+(* the hypotheses of C12_policies are met by the fault-free run of the probe under the
+   object-store cluster, whose cluster-visible trace is the predicted one *)
+Example C12_probe_run :
+  exec (exec_hook probe_rel PreInstall) (snd probe_run) true /\
+  Forall del_ok (snd probe_run) /\ Forall create_ok (snd probe_run) /\
+  cview (snd probe_run) =
+  (let r n := [mkRes "ConfigMap" n [("d:h", n)]] in
+   [ CDelete (r "hb") true; CCreate (r "hb") true;
+     CWatch PreInstall (hk_ "hb" (-1) [PreInstall] [HookSucceeded; BeforeHookCreation]) true;
+     CDelete (r "hd") true; CCreate (r "hd") true; CWatch PreInstall (hk_ "hd" 0 [PreInstall] []) true;
+     CCreate (r "ha") true; CWatch PreInstall (hk_ "ha" 5 [PreInstall] [HookSucceeded]) true;
+     CCreate (r "hz") true; CWatch PreInstall (hk_ "hz" 5 [PreInstall] [HookFailed]) true;
+     CDelete (r "ha") true; CDelete (r "hb") true ]).
+Proof. exact probe_run_all. Qed.
+Print Assumptions C12_probe_run.
+
+(* the hypotheses of C12_pre_gate are met by a real execution: non-atomic install whose
+   pre-install hook hd fails; it ends in an error and the manifest is never created *)
+Example C12_pre_gate_example :
+  f_atomic (op_flags gate_op) = false /\ f_dry_run (op_flags gate_op) = false /\
+  exec (op_prog "rel" "default" gate_op) (snd gate_run) (OErr EOtherErr) /\
+  (exists h, In (ER (KHookWatch PreInstall h) false) (snd gate_run)) /\
+  ~ In (CCreate [stamp "rel" "default" (mkRes "ConfigMap" "a" [("d:k", "v1")])] true) (cview (snd gate_run)).
+Proof. exact gate_example_all. Qed.
+Print Assumptions C12_pre_gate_example.
